@@ -64,6 +64,7 @@ def run(prop, tier):
 
 def replay(prop, path):
     out = C.Outcome(prop, "quick")
+    out.no_evidence = True
     wd = C.workdir("xpscr")
     try:
         v = json.load(open(path))
